@@ -10,6 +10,7 @@ ID = "C20"
 LEVEL = "exploration"
 TOL = 1e-4
 LO, HI = -1.0, 2.0   # the bound values used when an input is bounded
+ZLO, ZHI = 0.0, 0.0  # 'zero' variants: a bound that is exactly 0.0 (falsy) must still clip
 
 
 def eval_configs(tier):
@@ -22,6 +23,11 @@ def eval_configs(tier):
       for bm in bound_modes:
         for bias in (True, False):
           out.append(dict(kind="eval", n=n, units=units, bounds=list(bm), use_bias=bias))
+      if units <= 2:
+        for bm in itertools.product(("none", "zlo", "zhi"), repeat=n):
+          if all(b == "none" for b in bm):
+            continue
+          out.append(dict(kind="eval", n=n, units=units, bounds=list(bm), use_bias=True))
   return out
 
 
@@ -36,8 +42,8 @@ def grid(n, bounds):
 def build(cfg, kernel, bias, **extra):
   tf, tfl = bind.bind()
   n, units = cfg["n"], cfg["units"]
-  imin = [LO if b in ("lo", "both") else None for b in cfg["bounds"]]
-  imax = [HI if b in ("hi", "both") else None for b in cfg["bounds"]]
+  imin = [LO if b in ("lo", "both") else ZLO if b == "zlo" else None for b in cfg["bounds"]]
+  imax = [HI if b in ("hi", "both") else ZHI if b == "zhi" else None for b in cfg["bounds"]]
   kw = {}
   if any(v is not None for v in imin):
     kw["input_min"] = imin
@@ -60,6 +66,10 @@ def ref_linear(cfg, kernel, bias, X):
       Xc[..., i] = np.maximum(Xc[..., i], LO)
     if b in ("hi", "both"):
       Xc[..., i] = np.minimum(Xc[..., i], HI)
+    if b == "zlo":
+      Xc[..., i] = np.maximum(Xc[..., i], ZLO)
+    if b == "zhi":
+      Xc[..., i] = np.minimum(Xc[..., i], ZHI)
   out = np.einsum("bui,iu->bu", Xc, kernel)
   if cfg["use_bias"]:
     out = out + np.asarray(bias)[None, :]
@@ -196,6 +206,7 @@ def work(ctx, item):
     if item["kind"] == "eval":
       sig.update(units1=int(item["units"] == 1), bias=int(item["use_bias"]),
                  bounded=int(any(b != "none" for b in item["bounds"])),
+                 zero_bound=int(any(b in ("zlo", "zhi") for b in item["bounds"])),
                  partially_bounded=int(len(set(item["bounds"])) > 1))
     ctx.violation(sig, item, msg)
 
